@@ -30,7 +30,7 @@ ASSUMPTIONS = ["ambiguous encodings (bool, integral floats for Discrete) are not
                "Discrete = Python int or numpy integer in [0, n)"]
 REQUIRED = ["C17:continue-after-rejection", "C17:malformed-rejected-in-time", "C17:no-effect-on-reject", "C17:malformed-never-executed", "C17:allocation-denoted",
             "C17:target-reached", "C17:residual-in-cash"]
-REQUIRED_CATS = ["bounds-exclude-zero", "fit-transformers", "per-contract-bounds", "second-episode", "box", "discrete", "with-cash", "nr-contracts", "delay:1", "delay:2"]
+REQUIRED_CATS = ["box-open-on-one-side", "bad:B:open-high:below", "bad:B:open:nan", "bounds-exclude-zero", "fit-transformers", "per-contract-bounds", "second-episode", "box", "discrete", "with-cash", "nr-contracts", "delay:1", "delay:2"]
 REQUIRED_HITS = ["Broker.transact", "Broker.rebalance"]
 TECHNIQUE = "runtime monitoring with fault injection: malformed actions injected into episodes; Broker.transact hook proves nothing executed"
 LEVEL_TEXT = ("Fault enumeration over the kinds of malformed action x space type x delay, each injected at a random step of a real "
@@ -87,6 +87,24 @@ def case(ctx, i, tier):
             los = np.full(m, lo * scale, dtype=float)
             his = np.full(m, hi * scale, dtype=float)
             sp_ = BoxPortfolio(contracts, lo * scale, hi * scale, as_weights=asw)
+        open_side = None
+        if rng.random() < 0.25:
+            # a box that is open on one side (long-only number of contracts, 'no upper limit'): some or all of the
+            # bounds on that side are infinite - the finite side and NaN are still enforced
+            open_side = rng.choice(["high", "low"])
+            which = [rng.random() < 0.6 for _ in contracts]
+            if not any(which) or rng.random() < 0.4:
+                which = [True] * m
+            if open_side == "high":
+                his = np.where(which, np.inf, his)
+            else:
+                los = np.where(which, -np.inf, los)
+            if rng.random() < 0.5 and all(which):
+                sp_ = BoxPortfolio(contracts, (float(los[0]) if np.all(los == los[0]) else los),
+                                   (float(his[0]) if np.all(his == his[0]) else his), as_weights=asw)
+            else:
+                sp_ = BoxPortfolio(contracts, los, his, as_weights=asw)
+            ctx.cat("box-open-on-one-side")
         valid = lambda: np.array([rng.uniform(max(l, -0.3 * scale), max(min(h, 0.4 * scale), max(l, -0.3 * scale))) for l, h in zip(los, his)])
         denote = lambda a: list(a)
         j_hi = rng.randrange(m)
@@ -102,7 +120,23 @@ def case(ctx, i, tier):
                 ("nan", np.array([np.nan] * m)), ("one-nan", np.where(np.arange(m) == rng.randrange(m), np.nan, 0.1)),
                 ("2d", np.array([[0.1] * m])), ("none", None), ("string", "x"), ("inf", np.array([np.inf] * m)),
                 ("scalar", 0.1) if m > 1 else ("-inf", np.array([-np.inf] * m))]
-        if np.any(los > 0) or np.any(his < 0):
+        if open_side is not None:
+            fin_lo = np.where(np.isfinite(los), los, -1.0 * scale)
+            fin_hi = np.where(np.isfinite(his), his, 1.0 * scale)
+            inside = np.array([min(max(0.1 * scale, l), h) for l, h in zip(fin_lo, fin_hi)])
+            if open_side == "high":
+                jb = rng.randrange(m)
+                one = inside.copy()
+                one[jb] = los[jb] - 0.25 * scale
+                bads = [("open-high:below", fin_lo - 1.0 * scale), ("open-high:one-below", one)]
+            else:
+                jb = rng.randrange(m)
+                one = inside.copy()
+                one[jb] = his[jb] + 0.25 * scale
+                bads = [("open-low:above", fin_hi + 1.0 * scale), ("open-low:one-above", one)]
+            bads += [("open:nan", np.array([np.nan] * m)), ("open:one-nan", np.where(np.arange(m) == rng.randrange(m), np.nan, inside)),
+                     ("open:len+1", np.full(m + 1, 0.1))]
+        elif np.any(los > 0) or np.any(his < 0):
             # the all-zero vector is then out of bounds too (it merely looks like the null placeholder)
             bads = [("all-zero", np.zeros(m)), ("all-zero-list", [0.0] * m)] + bads[:2]
     tr = Transmitter(grid)
